@@ -59,8 +59,9 @@ _METHODS = {dict: ("keys", "values", "items", "get"), list: ("append", "index", 
 
 
 class Interp(object):
-    def __init__(self, intrinsics=None, arith=False, max_steps=20000, int_methods=False):
+    def __init__(self, intrinsics=None, arith=False, max_steps=20000, int_methods=False, resolver=None):
         self.intr = dict(intrinsics or {})
+        self.resolver = resolver      # optional: callable(call text, args, kwargs) for methods of the object under evaluation
         self.arith = arith
         self.max_steps = max_steps
         self.steps = 0
@@ -444,4 +445,6 @@ class Interp(object):
                     if isinstance(base, dict) and e.func.attr in ("keys", "values", "items"):
                         return list(r)
                     return r
+        if self.resolver is not None:
+            return self.resolver(name, args, kw)
         raise Refuse(e, "call outside the intrinsics")
